@@ -28,6 +28,8 @@ Ltac unf :=
     p_lt, p_le, p_gt, p_eq, py_int_of_float, py_float, fl_bind, fl_seq, fl_try, run_flow, bind, str_raise, isinstance1, type_is1, existsb, int_like, str_mem, orb, andb, negb in *.
 Ltac split_match :=
   match goal with
+  | |- context [match map_result ?f ?l with _ => _ end] => destruct (map_result f l)
+  | |- context [match all_m ?f ?l with _ => _ end] => destruct (all_m f l)
   | |- context [match ?x with _ => _ end] =>
       lazymatch x with
       | context [match _ with _ => _ end] => fail
@@ -42,7 +44,8 @@ Ltac split_match_eq :=
       | _ => destruct x eqn:?
       end
   end.
-Ltac crush := unf; cbn -[str_eqb Z.pow]; rewrite ?str_eqb_nil_r; repeat (split_match; cbn -[str_eqb Z.pow]); auto.
+Ltac crush := unf; cbn -[str_eqb Z.pow]; rewrite ?str_eqb_nil_r;
+  repeat (first [split_match | progress unf]; cbn -[str_eqb Z.pow]); auto.
 
 Lemma f_abs_lt : forall f, f_lt_Z (f_absv f) 9007199254740992 = f_abs_lt_pow2 f 53.
 Proof.
@@ -136,7 +139,114 @@ Qed.
 Lemma bridge_ChoiceList_do_convert : forall v, same_res (gen_ChoiceList_do_convert orc v) (choicelist_do_convert orc v).
 Proof.
   intros v. unfold gen_ChoiceList_do_convert, choicelist_do_convert. destruct v; try (crush; fail).
-  all: cbn -[str_eqb Z.pow strs_of]; rewrite ?strs_of_as_p_str; try (crush; fail).
-Abort.
+  - (* str: the JSON branch *)
+    unf; cbn -[str_eqb Z.pow starts_with]. destruct s as [|c s]; [cbn; auto|]. cbn -[str_eqb Z.pow starts_with].
+    destruct (starts_with _ (c :: s)); cbn -[str_eqb Z.pow starts_with]; [|auto].
+    destruct (o_json_loads orc (c :: s)) as [j|]; cbn -[str_eqb Z.pow starts_with]; [|auto].
+    destruct j; cbn -[str_eqb Z.pow strs_of];
+      try match goal with |- context [o_iter orc ?i] => destruct (o_iter orc i); cbn -[str_eqb Z.pow strs_of] end;
+      rewrite ?strs_of_as_p_str; crush.
+  - cbn -[str_eqb Z.pow strs_of]; rewrite ?strs_of_as_p_str; crush.
+  - cbn -[str_eqb Z.pow strs_of]; rewrite ?strs_of_as_p_str; crush.
+  - cbn -[str_eqb Z.pow strs_of]; rewrite ?strs_of_as_p_str; crush.
+  - cbn -[str_eqb Z.pow strs_of]; rewrite ?strs_of_as_p_str; crush.
+  - (* set: sorted *)
+    cbn -[str_eqb Z.pow strs_of]. destruct l as [|x l]; [crush|]. cbn [negb]. rewrite map_p_str. unfold strs_of_sorted.
+    destruct (map_result (str_raise orc) (x :: l)) as [ss|e]; cbn [bind fl_seq fl_bind run_flow]; rewrite ?sorted_plain_strs; cbn; auto.
+  - cbn -[str_eqb Z.pow strs_of]; rewrite ?strs_of_as_p_str; crush.
+  - (* opaque *)
+    unf; cbn -[str_eqb Z.pow strs_of]. destruct (o_truthy orc id) as [[|]|]; cbn -[str_eqb Z.pow strs_of]; auto.
+    destruct (o_iter orc id); cbn -[str_eqb Z.pow strs_of]; rewrite ?strs_of_as_p_str; crush.
+Qed.
+
+(* ---- ReferenceList.do_convert: the str pre-processing, then the tail, then the per-element pass ---- *)
+Definition reflist_generic (v : value) : result value :=
+  bind (py_iter orc v) (fun items => bind (map_result (id_do_convert orc) items) (fun l => Ok (PList LPlain l))).
+
+Definition reflist_tail (t : str) (v : value) : result value :=
+  match v with
+  | PRecordSet t' _ rows info =>
+      if str_eqb t' t then Ok (PList (LRecordList info) (map (PInt false) rows)) else Raise E_Assertion
+  | _ =>
+    match py_truthy orc v with
+    | None => Raise E_Type
+    | Some false => Ok PNone
+    | Some true =>
+        match v with
+        | PList _ l =>
+            if forallb (is_recordset_of t) l then
+              Ok (PList LPlain (map (PInt false)
+                    (dedup_Z [] (flat_map (fun x => match x with PRecordSet _ _ rows _ => rows | _ => [] end) l))))
+            else reflist_generic v
+        | _ => reflist_generic v
+        end
+    end
+  end.
+
+Lemma reflist_split : forall t v0, reflist_do_convert orc t v0 = reflist_tail t (reflist_pre orc v0).
+Proof. reflexivity. Qed.
+
+Definition same_list (a b : result (list value)) : Prop :=
+  match a, b with Ok x, Ok y => x = y | Raise _, Raise _ => True | _, _ => False end.
+
+Lemma map_result_same : forall (f g : value -> result value) l,
+  (forall x, same_res (f x) (g x)) -> same_list (map_result f l) (map_result g l).
+Proof.
+  intros f g l H. induction l as [|x t IH]; cbn [map_result]; [reflexivity|].
+  specialize (H x). destruct (f x), (g x); cbn in *; try contradiction; auto. subst.
+  destruct (map_result f t), (map_result g t); cbn in *; try contradiction; auto. subst. reflexivity.
+Qed.
+
+Lemma bridge_RL_k2 : forall t v p a b,
+  same_res (run_flow (gen_ReferenceList_do_convert_k2 orc t (v, p, a, b))) (reflist_generic v).
+Proof.
+  intros t v p a b. unfold gen_ReferenceList_do_convert_k2, reflist_generic, p_iter.
+  destruct (py_iter orc v) as [items|e]; cbn [bind fl_bind run_flow]; [|exact I].
+  pose proof (map_result_same (fun x => gen_Id_do_convert orc x) (id_do_convert orc) items bridge_Id_do_convert) as H.
+  destruct (map_result (fun v_val : value => gen_Id_do_convert orc v_val) items), (map_result (id_do_convert orc) items);
+    cbn in *; try contradiction; auto. subst. reflexivity.
+Qed.
+
+Lemma all_recordsets : forall t l,
+  all_m (fun v_rset => r_and (Ok (p_isinstance [C_RecordSet] v_rset)) (p_table_is v_rset t)) l = Ok (forallb (is_recordset_of t) l).
+Proof.
+  intros t l. induction l as [|x r IH]; [reflexivity|]. cbn [all_m forallb]. rewrite IH.
+  destruct x; try reflexivity. cbn. destruct (str_eqb t0 t); reflexivity.
+Qed.
+
+Lemma flatten_recordsets : forall t l, forallb (is_recordset_of t) l = true ->
+  bind (map_result (fun v_rset => bind (p_row_ids v_rset) (fun m_ => map_result (fun v_row_id => Ok v_row_id) m_)) l)
+       (fun ll_ => Ok (List.concat ll_)) =
+  Ok (map (PInt false) (flat_map (fun x => match x with PRecordSet _ _ rows _ => rows | _ => [] end) l)).
+Proof.
+  intros t l H. induction l as [|x r IH]; [reflexivity|]. cbn [forallb] in H. apply andb_true_iff in H as [Hx Hr].
+  specialize (IH Hr). destruct x; try discriminate. cbn [map_result p_row_ids bind flat_map].
+  assert (Hid : forall m : list value, map_result (fun v_row_id => Ok v_row_id) m = Ok m).
+  { induction m as [|y m IHm]; [reflexivity|]. cbn [map_result bind]. rewrite IHm. reflexivity. }
+  rewrite Hid. cbn [bind].
+  destruct (map_result _ r) as [ll|e]; cbn [bind] in *; [|discriminate]. inversion IH as [Hll].
+  cbn [List.concat]. rewrite Hll, map_app. reflexivity.
+Qed.
+
+Lemma dedup_ints : forall zs, p_dedup (map (PInt false) zs) = Ok (map (PInt false) (dedup_Z [] zs)).
+Proof.
+  intros zs. unfold p_dedup.
+  assert (H : map_result (fun x => match x with PInt _ z => Ok z | _ => Raise E_Type end) (map (PInt false) zs) = Ok zs).
+  { induction zs as [|z r IH]; [reflexivity|]. cbn [map map_result bind]. rewrite IH. reflexivity. }
+  rewrite H. reflexivity.
+Qed.
+
+Lemma bridge_RL_k1 : forall t v p a b,
+  same_res (run_flow (gen_ReferenceList_do_convert_k1 orc t (v, p, a, b))) (reflist_tail t v).
+Proof.
+  intros t v p a b. unfold gen_ReferenceList_do_convert_k1, reflist_tail.
+  destruct v; try (unf; cbn -[str_eqb Z.pow]; repeat (split_match; cbn -[str_eqb Z.pow]); auto; apply bridge_RL_k2; fail).
+  - (* list *)
+    unf. cbn -[str_eqb Z.pow all_m]. destruct l as [|x l]; [cbn; auto|]. cbn -[str_eqb Z.pow all_m].
+    rewrite all_recordsets. cbn -[str_eqb Z.pow forallb].
+    destruct (forallb (is_recordset_of t) (x :: l)) eqn:E; cbn -[str_eqb Z.pow forallb].
+    + rewrite (flatten_recordsets t _ E). cbn [bind]. rewrite dedup_ints. cbn. reflexivity.
+    + apply bridge_RL_k2.
+Qed.
 
 End Bridge.
